@@ -4,7 +4,7 @@
 (* stories and items must return, as a function of the document (C15-C17). *)
 (*                                                                         *)
 (* The "view" of a running order (read directly from the XML by alpha):    *)
-(*   [edstart, exact, stories]                                             *)
+(*   [edstart, exact, numeric, stories]                                    *)
 (*   edstart : Opt(Int)  roEdStart, quarter-seconds since 2020-01-01       *)
 (*   exact   : all numbers in the view are exactly representable           *)
 (*   stories : Seq of                                                      *)
@@ -182,8 +182,11 @@ ScriptOk(V, O) ==
      /\ O.ro.script = RoScript(V)
      /\ O.ro.body = RoBody(V)
 
+(* V.numeric = FALSE: some StoryDuration / TextTime / MediaTime is blank or *)
+(* not a number - C15 speaks about "numeric durations ... where present",  *)
+(* so an accessor that raises on such a view is not judged                 *)
 ObsFailing(V, O) ==
-  (IF ObsTotal(O) THEN <<>> ELSE <<"obs_total">>)
+  (IF ObsTotal(O) \/ ~V.numeric THEN <<>> ELSE <<"obs_total">>)
   \o (IF ObsTotal(O) => ObsAgree(V, O) THEN <<>> ELSE <<"obs_agree">>)
   \o (IF ObsTotal(O) => TimingOk(V, O) THEN <<>> ELSE <<"timing">>)
   \o (IF ObsTotal(O) => ScriptOk(V, O) THEN <<>> ELSE <<"script_body">>)
